@@ -40,6 +40,7 @@ type vrResult struct {
 	Snaps    int      `json:"snaps"`
 	SnapErrs int      `json:"snap_errs"`
 	Migrated int      `json:"migrated"` // restarts of a JSON node with -pre1.0_protobuf (stores converted)
+	Offset   uint64   `json:"offset"`   // robust.MessageOffset of the scenario
 }
 
 type vrNode struct {
@@ -196,6 +197,12 @@ func vrScenario(k int, seed int64, base string) (res vrResult) {
 	os.MkdirAll(dir, 0755)
 	defer os.RemoveAll(dir)
 	n := &vrNode{dir: dir, proto: rng.Intn(2) == 0}
+	// half of the scenarios with the production default of -robustirc_message_offset
+	robust.MessageOffset = 0
+	if k%2 == 0 {
+		robust.MessageOffset = 4648398125000000000
+	}
+	res.Offset = robust.MessageOffset
 	defer func() {
 		if p := recover(); p != nil {
 			res.OK, res.Err = false, fmt.Sprint(p)
